@@ -51,6 +51,9 @@ pub fn run(prop: &str, cx: &mut Ctx) -> bool {
         "C11" => c11::run(cx),
         "C12" => {
             fsx::set_scratch(cx.a.scratch.clone());
+            if cx.a.lane == "strace" {
+                fsx::enable_markers();
+            }
             c12::run(cx)
         }
         "C13" => {
